@@ -62,6 +62,8 @@ class TypeEnv:
                 return ("map", self._p(args[0]), self._p(args[1]))
             if head in ("tuple", "Tuple"):
                 return ("tuple", tuple(self._p(a) for a in args))
+            if head in ("hmap",):   # dict of mutable heap objects (sidecar only): hmap[K, Class]
+                return ("hmap", self._p(args[0]), ast.unparse(args[1]).strip("'\""))
             if head in ("clist",):   # list with a concrete number of items (sidecar only)
                 return ("clist", self._p(args[0]))
             if head in ("cdict",):
@@ -72,6 +74,9 @@ class TypeEnv:
                 return ("opaque",)
             if head == "func":
                 return ("func", ast.unparse(args[0]).strip("'\""))
+            if head == "sym":     # immutable object with symbolic identity (sidecar only)
+                nm = ast.unparse(args[0]).strip("'\"")
+                return ("symobj", self.db.aliases.get(nm, nm))
             if head == "cls":
                 return ("cls", ast.unparse(args[0]).strip("'\""))
             if head in ("ClassVar", "Final", "Annotated"):
@@ -236,6 +241,14 @@ def mk_sym(st, tenv: TypeEnv, t, name: str, depth=0) -> V:
         st.heap[(ref, "val")] = val
         st.input_terms[name + ".val"] = val
         return VMap(ref, kt, vt)
+    if k == "hmap":
+        from .loops import VHMap
+        ref = st.new_ref()
+        dom = z3.Const(st.fresh_name(name + ".dom"), z3.ArraySort(sort_of_type(t[1]), z3.BoolSort()))
+        st.heap[(ref, "dom")] = dom
+        st.input_terms[name + ".dom"] = dom
+        st.heap[(ref, "cache")] = ()
+        return VHMap(ref, t[1], tenv.db.aliases.get(t[2], t[2]))
     if k == "clist":
         ref = st.new_ref()
         st.heap[(ref, "items")] = ()
